@@ -27,7 +27,7 @@ for p in props:
         na.append({"property_id": pid, "reason": n.get("not_applicable", "theorems for this property are not yet written in this round; correspondence and probe exist (./check " + pid + " quick) but the property is not claimed until a theorem decides it")})
 m = {
     "version": 1,
-    "setup_cmd": "cd /verif && python3 tools/gen_tables.py && (cd harness && cargo build && cargo build --release) && mkdir -p build && ./harness/target/debug/lucid-harness --mode unicode --unicode build/unicode.tbl --out build/unicode_report.json --tier quick; python3 tools/gen_unicode.py && (cd lean && lake build)",
+    "setup_cmd": "cd /verif && python3 tools/gen_tables.py && python3 tools/gen_canon.py && (cd harness && cargo build && cargo build --release) && mkdir -p build && ./harness/target/debug/lucid-harness --mode unicode --unicode build/unicode.tbl --out build/unicode_report.json --tier quick; python3 tools/gen_unicode.py && (cd lean && lake build)",
     "hooks": {"guard": "lucid_suggest_verif", "enable": "rustc cfg: RUSTFLAGS/--cfg lucid_suggest_verif, set in /verif/harness/.cargo/config.toml (build.rustflags) so that the harness builds /repo/rust/core with the hooks on",
               "baseline_off_cmd": "cd /repo/rust/core && (cargo nextest run --workspace --no-fail-fast --offline || cargo test --workspace --no-fail-fast --offline)",
               "source_commits": hook_commits, "add_only": True},
